@@ -15,6 +15,11 @@
 (*                   application forgets the request (Forget = TRUE) or       *)
 (*                   keeps it (the library itself never removes it)           *)
 (*   Logout(u)       SP: local_logout                                        *)
+(*   IdPLogout(u, c) IdP: a LogoutRequest for u reaches the SP over the back  *)
+(*                   channel while the application believes c to be the       *)
+(*                   current user (handle_logout_request): the session of u   *)
+(*                   ends iff u = c, the answer says Success or               *)
+(*                   UnknownPrincipal                                        *)
 (*   Expire          the clock passes the validity of every response issued   *)
 (*                   so far                                                  *)
 (*                                                                         *)
@@ -33,50 +38,58 @@ VARIABLES nextReq,       \* request ids are 1, 2, ...
           wire,          \* responses issued so far: sequence of [irt, user, epoch]
           epoch,         \* increases with Expire; a response is valid in the epoch it was issued in
           sessions,      \* users logged in at the SP
+          entries,       \* users the SP's cache has an entry for (a superset: expired entries stay until removed)
           consumed,      \* history: responses the SP has accepted at least once
           last
-vars == <<nextReq, outstanding, atIdp, wire, epoch, sessions, consumed, last>>
+vars == <<nextReq, outstanding, atIdp, wire, epoch, sessions, entries, consumed, last>>
 
 NoReq == 0
-Init == /\ nextReq = 1 /\ outstanding = {} /\ atIdp = {} /\ wire = <<>> /\ epoch = 0 /\ sessions = {} /\ consumed = {}
+Init == /\ nextReq = 1 /\ outstanding = {} /\ atIdp = {} /\ wire = <<>> /\ epoch = 0 /\ sessions = {} /\ entries = {} /\ consumed = {}
         /\ last = [op |-> "Init"]
 
 Start == /\ nextReq <= MaxReq
          /\ outstanding' = outstanding \cup {nextReq} /\ atIdp' = atIdp \cup {nextReq}
          /\ nextReq' = nextReq + 1
          /\ last' = [op |-> "Start", req |-> nextReq]
-         /\ UNCHANGED <<wire, epoch, sessions, consumed>>
+         /\ UNCHANGED <<wire, epoch, sessions, entries, consumed>>
 Answer(q, u) == /\ q \in atIdp /\ Len(wire) < MaxResp
                 /\ wire' = Append(wire, [irt |-> q, user |-> u, epoch |-> epoch])
                 /\ last' = [op |-> "Answer", req |-> q, user |-> u, resp |-> Len(wire) + 1]
-                /\ UNCHANGED <<nextReq, outstanding, atIdp, epoch, sessions, consumed>>
+                /\ UNCHANGED <<nextReq, outstanding, atIdp, epoch, sessions, entries, consumed>>
 Push(u) == /\ Len(wire) < MaxResp
            /\ wire' = Append(wire, [irt |-> NoReq, user |-> u, epoch |-> epoch])
            /\ last' = [op |-> "Push", user |-> u, resp |-> Len(wire) + 1]
-           /\ UNCHANGED <<nextReq, outstanding, atIdp, epoch, sessions, consumed>>
+           /\ UNCHANGED <<nextReq, outstanding, atIdp, epoch, sessions, entries, consumed>>
 Accepts(r) == /\ r.epoch = epoch
               \* with the unsolicited option an InResponseTo that names nothing outstanding (any more) is no obstacle either
               /\ (r.irt \in outstanding \/ AllowUnsolicited)
 Deliver(i) == /\ i \in 1..Len(wire)
               /\ LET r == wire[i] IN
                  IF Accepts(r)
-                 THEN /\ sessions' = sessions \cup {r.user} /\ consumed' = consumed \cup {i}
+                 THEN /\ sessions' = sessions \cup {r.user} /\ entries' = entries \cup {r.user} /\ consumed' = consumed \cup {i}
                       /\ outstanding' = IF Forget THEN outstanding \ {r.irt} ELSE outstanding
                       /\ last' = [op |-> "Deliver", resp |-> i, accepted |-> TRUE, user |-> r.user, irt |-> r.irt]
-                 ELSE /\ UNCHANGED <<sessions, outstanding, consumed>>
+                 ELSE /\ UNCHANGED <<sessions, entries, outstanding, consumed>>
                       /\ last' = [op |-> "Deliver", resp |-> i, accepted |-> FALSE, user |-> r.user, irt |-> r.irt]
               /\ UNCHANGED <<nextReq, atIdp, wire, epoch>>
-Logout(u) == /\ u \in sessions /\ sessions' = sessions \ {u}
+Logout(u) == /\ u \in sessions /\ sessions' = sessions \ {u} /\ entries' = entries \ {u}
              /\ last' = [op |-> "Logout", user |-> u]
              /\ UNCHANGED <<nextReq, outstanding, atIdp, wire, epoch, consumed>>
+\* (a subject the cache has no entry for cannot be logged out: the removal fails and the answer is RequestDenied)
+IdPLogout(u, c) == /\ sessions' = IF u = c THEN sessions \ {u} ELSE sessions
+                   /\ entries' = IF u = c THEN entries \ {u} ELSE entries
+                   /\ last' = [op |-> "IdPLogout", user |-> u, current |-> c,
+                               status |-> IF u # c THEN "UnknownPrincipal" ELSE IF u \in entries THEN "Success" ELSE "RequestDenied"]
+                   /\ UNCHANGED <<nextReq, outstanding, atIdp, wire, epoch, consumed>>
 Expire == /\ epoch < 1 /\ epoch' = epoch + 1
           /\ sessions' = {}                    \* the sessions carry the expiry of their assertions
           /\ last' = [op |-> "Expire"]
-          /\ UNCHANGED <<nextReq, outstanding, atIdp, wire, consumed>>
+          /\ UNCHANGED <<nextReq, outstanding, atIdp, wire, entries, consumed>>
 Next == Start \/ (\E q \in 1..MaxReq, u \in Users : Answer(q, u)) \/ (\E u \in Users : Push(u) \/ Logout(u))
         \/ (\E i \in 1..MaxResp : Deliver(i)) \/ Expire
+        \/ (\E u \in Users, c \in Users : IdPLogout(u, c))
 Spec == Init /\ [][Next]_vars
-View == <<nextReq, outstanding, atIdp, wire, epoch, sessions, consumed>>
+View == <<nextReq, outstanding, atIdp, wire, epoch, sessions, entries, consumed>>
 
 (***************************************************************************)
 (* Statements                                                              *)
@@ -88,6 +101,8 @@ SessionHasCause == \A u \in sessions : \E i \in 1..Len(wire) : wire[i].user = u 
 SolicitedOnly == [][(last'.op = "Deliver" /\ last'.accepted /\ ~AllowUnsolicited) => last'.irt \in outstanding]_vars
 \* an expired response never logs anybody in
 NoLateLogin == [][(last'.op = "Deliver" /\ last'.accepted) => wire[last'.resp].epoch = epoch]_vars
+\* a logout request for one subject never ends another subject's session
+LogoutIsTargeted == [][last'.op = "IdPLogout" => sessions \ sessions' \subseteq {last'.user}]_vars
 \* one response, one login: a response that was accepted once is not accepted again.  Refuted with Forget = FALSE
 \* (the library keeps no record of consumed responses and never drops an outstanding request itself), and refuted for
 \* IdP-initiated responses whatever the application does.
